@@ -119,7 +119,7 @@ func (p *BundlePropertyExperimenter) Len() uint16 {
 }
 
 func (p *BundlePropertyExperimenter) MarshalBinary() (data []byte, err error) {
-	data = make([]byte, 0)
+	data = make([]byte, p.Len())
 	n := 0
 	binary.BigEndian.PutUint16(data[n:], p.Type)
 	n += 2
@@ -129,9 +129,7 @@ func (p *BundlePropertyExperimenter) MarshalBinary() (data []byte, err error) {
 	n += 4
 	binary.BigEndian.PutUint32(data[n:], p.ExperimenterType)
 	n += 4
-	if p.data != nil {
-		data = append(data, p.data...)
-	}
+	copy(data[n:], p.data)
 	return
 }
 
